@@ -35,7 +35,8 @@ def lattice(tier, seed):
                 if m == "ABAS5O6H" and sh in ("scalar0", "vec1"):
                     continue
                 cells.append({"method": m, "t_eval": te, "shape": sh, "args": (n % 2 == 0), "max_step": (0.0625 if n % 3 == 0 else None),
-                              "tol": (1e-8 if n % 2 else 1e-5), "dense": bool(n % 4 == 1), "events": bool(n % 5 == 0)})
+                              "tol": (1e-8 if n % 2 else 1e-5), "atolf": (1.0 if n % 3 else 1e-3),      # atol = tol * atolf: distinct tolerances
+                              "dense": bool(n % 4 == 1), "events": bool(n % 5 == 0)})
     return cells
 
 
@@ -69,7 +70,7 @@ def cell_job(cell):
     meth = cell["method"]
     method = getattr(de.integrators, meth[4:]) if meth.startswith("cls:") else meth
     span = (0.0, 2.0)
-    opts = dict(rtol=cell["tol"], atol=cell["tol"], first_step=0.25)
+    opts = dict(rtol=cell["tol"], atol=cell["tol"] * cell.get("atolf", 1.0), first_step=0.25)
     if cell["max_step"] is not None:
         opts["max_step"] = cell["max_step"]
     evs = None
@@ -112,7 +113,7 @@ def cell_job(cell):
         if args is not None:
             consts = {"a": args[0], "b": args[1]}
         dt0 = 0.25 if ms is None else min(0.25, ms)
-        o = de.OdeSystem(f, y0, t=span, dense_output=cell["dense"], dt=dt0, rtol=cell["tol"], atol=cell["tol"], constants=consts)
+        o = de.OdeSystem(f, y0, t=span, dense_output=cell["dense"], dt=dt0, rtol=cell["tol"], atol=cell["tol"] * cell.get("atolf", 1.0), constants=consts)
         o.method = method
         cbs = []
         if ms is not None:
@@ -145,7 +146,7 @@ def cell_job(cell):
             if tend > span[0]:
                 ref = scipy.integrate.solve_ivp(fs, (span[0], tend), np.asarray(y0, dtype=float).reshape(-1), method="DOP853", rtol=1e-12, atol=1e-12)
                 yend = ref.y[:, -1].reshape(y0.shape)
-                out["scipyTolUnits"] = twins.tol_units(y[..., -1], yend, cell["tol"], cell["tol"])
+                out["scipyTolUnits"] = twins.tol_units(y[..., -1], yend, cell["tol"], cell["tol"] * cell.get("atolf", 1.0))
                 out["solTolUnits"] = out["scipyTolUnits"] if te is not None else -1
     except Exception as e:      # noqa
         out["error"] = "%s: %s" % (type(e).__name__, str(e)[:160])
@@ -181,7 +182,7 @@ def check(run, replay=None):
     for b in v["bad"]:
         o = obs[b["id"]]
         c = cells[b["id"]]
-        run.violation(b["clause"], "method=%s t_eval=%s shape=%s args=%s max_step=%s tol=%g dense=%s events=%s" % (c["method"], c["t_eval"], c["shape"], c["args"], c["max_step"], c["tol"], c["dense"], c["events"]),
+        run.violation(b["clause"], "method=%s t_eval=%s shape=%s args=%s max_step=%s tol=%g atol/rtol=%g dense=%s events=%s" % (c["method"], c["t_eval"], c["shape"], c["args"], c["max_step"], c["tol"], c.get("atolf", 1.0), c["dense"], c["events"]),
                       {k: v_ for k, v_ in o.items() if k not in ("cell", "id")}, replay=None)
     run.assumptions += ["forward spans only (the facade's range check rejects t_eval on backward spans; the property does not quantify over them)",
                         "scipy agreement is exploration level: end state against DOP853 at 1e-12 within 1000 tolerance units"]
